@@ -263,6 +263,9 @@ def correspondence(ctx):
 
 
 def replay(ctx, payload):
+    if payload.get("kind") == "coordinator_session":
+        from props import coordcommon as CC
+        return CC.replay_session(ctx, "C15", payload)
     gc = _impl()
     if payload.get("kind") == "view":
         d = payload["view"]
